@@ -750,11 +750,14 @@ theorem lz : ∀ rg ∈ rs, LazySide rg := by
     simp only [rec2, List.mem_cons, List.mem_nil_iff, or_false] at hp
     rcases hp with rfl | rfl <;> exact small_of _ (by decide)
 
+end Inst
+
+open Inst in
 /-- the hypotheses of `C10_index_equals_eager_partial` are satisfiable: the file
     `#1=ND('a', $);\n/* it's (x */ #2 =ND('b',#1 );\nENDSEC; END-ISO-10303-21;` over `ENTITY nd; name : STRING; nxt : OPTIONAL nd;` — a comment
     with an apostrophe and a parenthesis before `#2`, a reference back — for every floating-point interpretation, either strictness and
     every reader configuration with the comment repairs -/
-theorem _root_.StepModel.Lazy.C10_index_equals_eager_instance_witness (ops : FloatOps Nat) (lex : LexCfg) (cfg : RWCfg) (strict : Bool)
+theorem C10_index_equals_eager_instance_witness (ops : FloatOps Nat) (lex : LexCfg) (cfg : RWCfg) (strict : Bool)
     (hskip : cfg.skipInstanceSkipsComments = true) (hcri : lex.criSkipsComments = true) (hagg : cfg.aggrSkipsComments = true) :
     ∃ res es,
       readDataSection ops lex cfg d strict false ([] ++ renderRecs rs (RLemmas.endsec [] ([32] ++ (endIso ++ 59 :: [])))) = .ok res ∧
@@ -772,7 +775,6 @@ theorem _root_.StepModel.Lazy.C10_index_equals_eager_instance_witness (ops : Flo
     decide
   · rw [h4]; rfl
   · rw [← h5, h4]; rfl
-end Inst
 
 /-- the ids the eager model creates from a data section (dictionary `exDict` of the C01 owner: one entity `A(i : INTEGER, l : LIST OF
     INTEGER)`), with the count `ReadData1` reports -/
